@@ -258,11 +258,16 @@ type c15Case struct {
 	proto string // netrpc | grpc
 	mode  string // live | dead | test
 	ops   []string
+	srv   string // test mode: "" = server inside the harness process, "proc" = server in a separate process
 }
 
 func (c *c15Case) line() string {
 	launch := map[string]string{"live": "reattach", "dead": "reattach-dead", "test": "reattach-test"}[c.mode]
-	return fmt.Sprintf("C15 launch=%s hs=1 ops=%s proto=%s", launch, strings.Join(c.ops, ","), c.proto)
+	l := fmt.Sprintf("C15 launch=%s hs=1 ops=%s proto=%s", launch, strings.Join(c.ops, ","), c.proto)
+	if c.srv != "" {
+		l += " srv=" + c.srv
+	}
+	return l
 }
 
 // testServer: a plugin served in test mode inside the harness process.
@@ -314,6 +319,7 @@ func runC15(c *c15Case, idx int) (impl, pred string) {
 	var rc *plugin.ReattachConfig
 	var launcher *plugin.Client
 	var ts *testServer
+	var tp *testProc
 	targetPid := 0
 	switch c.mode {
 	case "live", "dead":
@@ -339,11 +345,21 @@ func runC15(c *c15Case, idx int) (impl, pred string) {
 		}
 	case "test":
 		var err error
-		ts, err = startTestServer(c.proto)
-		if err != nil {
-			return "setup-error", "FAIL:setup"
+		if c.srv == "proc" {
+			tp, err = startTestServerProc(c.proto, base)
+			if err != nil {
+				return "setup-error", "FAIL:setup"
+			}
+			defer tp.stop()
+			rc = tp.rc
+			targetPid = rc.Pid
+		} else {
+			ts, err = startTestServer(c.proto)
+			if err != nil {
+				return "setup-error", "FAIL:setup"
+			}
+			rc = ts.rc
 		}
-		rc = ts.rc
 		// mark the instance
 		mc := plugin.NewClient(&plugin.ClientConfig{HandshakeConfig: kitHandshake(), Plugins: hostSets[3], AllowedProtocols: allowed, Reattach: rc, Logger: nullLogger()})
 		if cp, err := mc.Client(); err == nil {
@@ -353,14 +369,45 @@ func runC15(c *c15Case, idx int) (impl, pred string) {
 		}
 	}
 	client := plugin.NewClient(&plugin.ClientConfig{HandshakeConfig: kitHandshake(), Plugins: hostSets[3], AllowedProtocols: allowed, Reattach: rc, Logger: nullLogger()})
+	var older []*plugin.Client // clients of earlier generations (op G)
+	defer func() {
+		for _, oc := range older {
+			oc := oc
+			withTimeout(10*time.Second, func() error { oc.Kill(); return nil })
+		}
+	}()
 	addrIdx := map[string]int{}
 	clIdx := map[plugin.ClientProtocol]int{}
 	var outs []string
+	var gensOut []string // results of completed generations
 	killed := false
+	stop := false
+	flagLost := false
+	executed := 0
 	for _, op := range c.ops {
+		executed++
 		var o string
 		_, hung, pp := withTimeout(20*time.Second, func() error {
 			switch op {
+			case "G":
+				// next generation: a new client built from ReattachConfig() of the current one
+				nrc := client.ReattachConfig()
+				gensOut = append(gensOut, strings.Join(outs, ","))
+				outs = nil
+				if nrc == nil {
+					o, stop = "nil", true
+					return nil
+				}
+				if c.mode == "test" && !nrc.Test {
+					flagLost = true // reported unless a behavioural failure (server killed) is observed as well
+				}
+				if (nrc.Addr == nil || nrc.Addr.Network()+"/"+nrc.Addr.String() != rc.Addr.Network()+"/"+rc.Addr.String()) && pred == "ok" {
+					pred = "FAIL:reattach-config-names-another-address"
+				}
+				older = append(older, client)
+				client = plugin.NewClient(&plugin.ClientConfig{HandshakeConfig: kitHandshake(), Plugins: hostSets[3], AllowedProtocols: allowed, Reattach: nrc, Logger: nullLogger()})
+				addrIdx = map[string]int{}
+				clIdx = map[plugin.ClientProtocol]int{}
 			case "S":
 				a, err := client.Start()
 				if err != nil {
@@ -421,18 +468,23 @@ func runC15(c *c15Case, idx int) (impl, pred string) {
 		if pp != nil {
 			o, pred = "panic", "FAIL:op-panicked:"+op
 		}
-		outs = append(outs, o)
+		if op != "G" || o != "" {
+			outs = append(outs, o)
+		}
 		if op == "K" && c.mode != "test" {
 			killed = true
 		}
-		if hung {
+		if hung || stop {
 			break
 		}
 	}
-	impl = fmt.Sprintf("outs=%s launches=0 dirs=0", strings.Join(outs, ","))
+	impl = fmt.Sprintf("outs=%s launches=0 dirs=0", strings.Join(append(gensOut, strings.Join(outs, ",")), ";"))
 	// property predicates on the target
 	hasKill, started := false, false
-	for _, op := range c.ops {
+	for _, op := range c.ops[:executed] {
+		if op == "G" {
+			started = false // a new client: its Kill does something only after it has started itself
+		}
 		if op == "S" || op == "C" || op == "P" {
 			started = true
 		}
@@ -465,6 +517,35 @@ func runC15(c *c15Case, idx int) (impl, pred string) {
 		if !ok && pred == "ok" {
 			pred = "FAIL:test-mode-server-not-serving-after-kill"
 		}
+		older = append(older, probe)
+		if tp != nil {
+			// server in its own process: it must still run, must not have ended, and ends when its context is cancelled
+			select {
+			case e, got := <-tp.endCh:
+				if pred == "ok" {
+					pred = "FAIL:test-mode-server-stopped-before-cancel"
+					if got && e == "cancelled" {
+						pred = "FAIL:test-mode-server-cancelled-early"
+					}
+				}
+			default:
+				if !pidAlive(targetPid) && pred == "ok" {
+					pred = "FAIL:test-mode-server-process-gone"
+				}
+				tp.stdin.Close() // cancels the serving context
+				select {
+				case e := <-tp.endCh:
+					if e != "cancelled" && pred == "ok" {
+						pred = "FAIL:test-mode-server-did-not-stop-on-cancel"
+					}
+				case <-time.After(6 * time.Second):
+					if pred == "ok" {
+						pred = "FAIL:test-mode-server-did-not-stop-on-cancel"
+					}
+				}
+			}
+			break
+		}
 		select {
 		case <-ts.closeCh:
 			if pred == "ok" {
@@ -481,6 +562,9 @@ func runC15(c *c15Case, idx int) (impl, pred string) {
 			}
 		}
 	}
+	if flagLost && pred == "ok" {
+		pred = "FAIL:reattach-config-of-test-mode-client-lost-test-flag"
+	}
 	withTimeout(10*time.Second, func() error { client.Kill(); return nil })
 	if launcher != nil {
 		withTimeout(10*time.Second, func() error { launcher.Kill(); return nil })
@@ -493,7 +577,7 @@ func init() {
 		if replay != "" {
 			_, m := kvLine(replay)
 			mode := map[string]string{"reattach": "live", "reattach-dead": "dead", "reattach-test": "test"}[m["launch"]]
-			c := &c15Case{proto: m["proto"], mode: mode, ops: splitComma(m["ops"])}
+			c := &c15Case{proto: m["proto"], mode: mode, ops: splitComma(m["ops"]), srv: m["srv"]}
 			impl, pred := runC15(c, 0)
 			o.emit(c.line(), impl, pred)
 			return
@@ -506,23 +590,27 @@ func init() {
 		seqs := lcSequences([]string{"S", "C", "K"}, maxLen)
 		for _, proto := range []string{"netrpc", "grpc"} {
 			for _, ops := range seqs {
-				cases = append(cases, &c15Case{proto, "live", ops})
+				cases = append(cases, &c15Case{proto: proto, mode: "live", ops: ops})
 				if len(ops) <= 2 {
-					cases = append(cases, &c15Case{proto, "dead", ops})
+					cases = append(cases, &c15Case{proto: proto, mode: "dead", ops: ops})
 				}
 			}
 		}
+		// reattaching several times, from a reattached client's ReattachConfig(): live plugins and test-mode server processes
+		chains := c15ChainCases()
+		cases = append(cases, chains...)
 		impls := make([]string, len(cases))
 		preds := make([]string, len(cases))
 		parallel(len(cases), 16, func(i int) { impls[i], preds[i] = runC15(cases[i], i) })
 		for i, c := range cases {
 			o.emit(c.line(), impls[i], preds[i])
 		}
+		o.note("C15: of these %d are chains of reattach-from-ReattachConfig (op G), half of them on test-mode server processes", len(chains))
 		// test mode: plugin.Serve swaps process-global stdio handling; run these sequentially
 		var tcases []*c15Case
 		for _, proto := range []string{"netrpc", "grpc"} {
 			for _, ops := range lcSequences([]string{"S", "C", "K"}, 2) {
-				tcases = append(tcases, &c15Case{proto, "test", ops})
+				tcases = append(tcases, &c15Case{proto: proto, mode: "test", ops: ops})
 			}
 		}
 		for i, c := range tcases {
